@@ -250,6 +250,10 @@ _SPEC = re.compile(r"^(?:(.)?([<>^]))?(0)?(\d+)?([xXbd])?$")
 _prev_format = _PATCH_REGISTRATIONS[format]
 
 
+# files of /repo in which every formatting of a value builds the text of an exception message
+_MESSAGE_ONLY_FILES = ("tpmstream/common/error.py", "tpmstream/io/hex/marshal.py", "tpmstream/io/swtpm_log/marshal.py")
+
+
 def _in_error_message():
     """True iff the innermost non-engine frame is an error constructor in tpmstream/common/error.py"""
     f = sys._getframe(2)
@@ -257,7 +261,7 @@ def _in_error_message():
         if f is None:
             return False
         fn = f.f_code.co_filename
-        if fn.endswith("tpmstream/common/error.py"):
+        if fn.endswith(_MESSAGE_ONLY_FILES):
             return True
         if "/crosshair/" in fn or fn.endswith("engine/chsetup.py"):
             f = f.f_back
@@ -268,7 +272,7 @@ def _in_error_message():
 
 def _format_model(obj, spec=""):
     with NoTracing():
-        if isinstance(obj, (SymbolicInt, AnySymbolicStr)) and _in_error_message():
+        if isinstance(obj, (SymbolicInt, AnySymbolicStr, SymbolicBytes)) and _in_error_message():
             # M1: the *text* of an error message is abstracted where it depends on symbolic values
             # (no property observes it); the constructor itself and its attributes stay real.
             HIT.add("M1")
@@ -411,9 +415,10 @@ class _BytesHaystack:
     def __contains__(self, needle):
         with NoTracing():
             one = isinstance(needle, SymbolicBytes) and len(needle.inner) == 1
-        if one:
+            isint = isinstance(needle, SymbolicInt)
+        if one or isint:
             HIT.add("B6")
-            c = needle[0]
+            c = needle[0] if one else needle
             return any([c == h for h in sorted(set(self.hay))])
         with NoTracing():
             return realize(needle) in self.hay
@@ -551,3 +556,21 @@ def _getattr(obj, name, *default):
 
 
 _PATCH_REGISTRATIONS[getattr] = _getattr
+
+
+# M1 (continued): str(symbolic bytes) inside the message-only files (swtpm/hex front-ends build their
+# ValueError texts with "%s" % str(b))
+_prev_str = _PATCH_REGISTRATIONS[str]
+
+
+def _str_m1(*a):
+    if len(a) == 1:
+        with NoTracing():
+            hit = isinstance(a[0], SymbolicBytes) and _in_error_message()
+        if hit:
+            HIT.add("M1")
+            return "?"
+    return _prev_str(*a)
+
+
+_PATCH_REGISTRATIONS[str] = _str_m1
